@@ -264,6 +264,7 @@ fn models(tier: Tier) -> Vec<Model> {
             v.extend(gen::m5(0).into_iter().step_by(7));
             v.extend(gen::m6(0).into_iter().step_by(3));
             v.extend(gen::m7(0).into_iter().step_by(11));
+            v.extend(gen::m8(0).into_iter().step_by(5));
         }
         Tier::Thorough => {
             v.extend(gen::m1(1).into_iter().step_by(11));
@@ -273,6 +274,7 @@ fn models(tier: Tier) -> Vec<Model> {
             v.extend(gen::m5(1).into_iter().step_by(2));
             v.extend(gen::m6(1));
             v.extend(gen::m7(1).into_iter().step_by(3));
+            v.extend(gen::m8(1).into_iter().step_by(2));
         }
     }
     v
